@@ -35,7 +35,21 @@ SUMMARIES = {
 SUMMARY_RESULT_TAGS = {'path_from_text': 'inst:core.Path'}
 
 
+def _stars_model(ex, st, clo, args):
+    """TType.__stars__(): number of wildcard steps, an abstract pure function of the ops tuple (its definition is the contract
+    on core.TType.__stars__ in C14)"""
+    import z3
+    from pyvc import z as Z
+    from pyvc.engine import SV
+    selfsv = clo.selfsv if clo.selfsv is not None else args.pos[0]
+    ops = ex.getattr_(st, selfsv, '__ops__')[0][2]
+    t = Z.fn('stars', Z.SeqR, Z.I)(ex.as_seq(st, ops))
+    st.add(t >= 0)
+    return [('ok', st, SV('int', t))]
+
+
 def apply(cfg, summaries=None, drop=()):
+    cfg.pure_models['core.TType.__stars__'] = _stars_model
     cfg.summary_result_tags.update(SUMMARY_RESULT_TAGS)
     cfg.field_types.update(FIELD_TYPES)
     cfg.scope_keys |= SCOPE_KEYS
